@@ -13,7 +13,11 @@ PROP = {'rule': 'rapid-generated cases. drift: state machine (<=40 steps) over p
          'from its estimate is removed (delete / rollback / terminated / moved) while the node has a metric. decision: (args after '
          'defaulting, node with custom-threshold and raw-allocatable annotations, metric fresh|expired|missing|empty, 0-4 assigned pods, '
          'incoming pod); allocatable aimed so that utilization = threshold + {-5..5, +-0.49/0.5/0.51, 1, 1.49, 1.5} percent; non-trivial = '
-         'utilization within (-1.6,+2.6) percent of the threshold, or the incoming pod\'s own estimate tips the node over. distinct = '
+         'utilization within (-1.6,+2.6) percent of the threshold, or the incoming pod\'s own estimate tips the node over. interleave: harness-owned '
+         'interleaving on one node: a reader holds the nodeInfo read lock while an emptying event (NodeMetric delete / removal of '
+         'the last pod) and an adding event (Reserve / pod add / bound update / NodeMetric add) are started in a drawn order and queue '
+         'behind it; after both returned and the report re-appeared the drift oracle runs at quiescence (expected state = sequential '
+         'application in start order); non-trivial = an add queued behind a delete that empties the nodeInfo. distinct = '
          'FNV-64 fingerprint of the full case.',
  'assumptions': ['per-pod estimates (estimator.EstimatePod) and the koordinator priority class of a pod are inputs, not under test',
                  'a NodeMetric with a non-empty status always carries status.updateTime (koordlet sets it on every report); PodsMetric '
@@ -30,9 +34,10 @@ PROP = {'rule': 'rapid-generated cases. drift: state machine (<=40 steps) over p
                  'Filter reads the wall clock for expiry: update times are generated >= 1 h away from the expiry boundary'],
  'units': [{'name': 'loadaware',
             'pkg': 'pkg/scheduler/plugins/loadaware',
-            'files': ['C08/c08_common_test.go', 'C08/c08_drift_test.go', 'C08/c08_decision_test.go'],
+            'files': ['C08/c08_common_test.go', 'C08/c08_drift_test.go', 'C08/c08_decision_test.go', 'C08/c08_interleave_test.go'],
             'tests': [{'run': 'TestVerifC08Drift', 'quick': 1500, 'thorough': 8000, 'steps': 40, 'quick_shards': 2},
-                      {'run': 'TestVerifC08Decision', 'quick': 8000, 'thorough': 40000, 'quick_shards': 2}]}],
+                      {'run': 'TestVerifC08Decision', 'quick': 8000, 'thorough': 40000, 'quick_shards': 2},
+                      {'run': 'TestVerifC08Interleave', 'quick': 600, 'thorough': 3000}]}],
  'manifest': {'technique': 'property-based testing (rapid): model-based state machine over the pod-assign cache with a differential '
                            '(fresh cache) and a from-scratch reference computation; generated-input one-directional oracle for Filter '
                            'with exact big-integer threshold arithmetic',
